@@ -192,8 +192,57 @@ def rule_forward(repo: Repo, rep: Report) -> int:
     return n
 
 
+REDUCTIONS = {"mean", "sum", "norm", "std", "var", "max", "min", "amax", "amin", "median", "cumsum", "cumprod", "sort", "prod", "logsumexp", "vector_norm", "softmax", "fft", "matmul", "mm", "einsum", "cummax"}
+DRAWS = {"randn", "rand", "randn_like", "rand_like", "normal", "exponential", "sample", "rsample", "rayleigh"}
+
+
+def rule_block_independence(repo: Repo, rep: Report) -> int:
+    """Coefficients are drawn independently across blocks and batch items: in `_generate_fading_coefficients` every
+    coefficient may depend on its own random draws only.  A reduction (or any operation mixing positions) applied to a
+    tensor derived from the draws makes one block's coefficient a function of the other blocks' draws (per-realisation
+    power normalisation is the typical case: with two blocks per item the block gains become perfectly anti-correlated
+    and the marginal law is no longer Rayleigh / Rician)."""
+    fi = repo.func(AN, "FlatFadingChannel._generate_fading_coefficients")
+    tainted = set()
+    changed = True
+
+    def is_draw(c):
+        return isinstance(c, ast.Call) and (call_name(c) or "").split(".")[-1] in DRAWS
+
+    def mentions(e):
+        return any(is_draw(x) or (isinstance(x, ast.Name) and x.id in tainted) for x in ast.walk(e))
+
+    assigns = [s_ for s_ in ast.walk(fi.node) if isinstance(s_, (ast.Assign, ast.AugAssign))]
+    while changed:
+        changed = False
+        for s_ in assigns:
+            tg = s_.targets if isinstance(s_, ast.Assign) else [s_.target]
+            if mentions(s_.value):
+                for t in tg:
+                    for x in ast.walk(t):
+                        if isinstance(x, ast.Name) and x.id not in tainted:
+                            tainted.add(x.id)
+                            changed = True
+    n_draws = sum(1 for c in ast.walk(fi.node) if is_draw(c))
+    rep.floor("random draws in _generate_fading_coefficients", n_draws, 4)
+    mixing = []
+    for c in ast.walk(fi.node):
+        if isinstance(c, ast.Call):
+            short = (call_name(c) or "").split(".")[-1]
+            if short in REDUCTIONS:
+                operands = list(c.args) + [k.value for k in c.keywords] + ([c.func.value] if isinstance(c.func, ast.Attribute) and not (call_name(c) or "").startswith("torch.") else [])
+                if any(mentions(o) for o in operands):
+                    mixing.append(c)
+    if mixing:
+        rep.violation("BLOCK-INDEP", fi, f"coefficients mixed across positions: {unparse(mixing[0])[:100]}", "a statistic over the drawn coefficients enters the coefficients themselves: blocks (and batch items) are no longer independent and the marginal law is no longer the configured one (with one block per item |h| becomes exactly 1)", node=mixing[0])
+    else:
+        rep.ok("BLOCK-INDEP", fi, f"{n_draws} draw sites, {len(tainted)} derived names", "every coefficient is an element-wise function of its own draws: no reduction or position-mixing operation touches a drawn tensor")
+    return 1
+
+
 def run(repo: Repo, rep: Report, tier: str) -> None:
     n = rule_gain(repo, rep)
+    n += rule_block_independence(repo, rep)
     n += rule_expand(repo, rep)
     n += rule_forward(repo, rep)
     n += rule_fading_noise(repo, rep)
@@ -203,4 +252,5 @@ def run(repo: Repo, rep: Report, tier: str) -> None:
         "ceil(L/T) blocks, one draw per item and block, expansion by floor(i/T) per batch row",
         "forward = h*x + n; supplied csi/noise used verbatim; output shape restored on 1-D/2-D/>2-D paths; noise calibrated on the faded signal",
     ]
-    rep.undecided_clauses += ["independence across blocks/items and gain statistics", "log-normal shadowing gain (excluded by the statement)"]
+    rep.decided_clauses += ["independence across blocks / items as a dataflow fact: no position-mixing operation on the drawn coefficients"]
+    rep.undecided_clauses += ["statistical independence of the generator's draws and gain statistics as numbers", "log-normal shadowing gain (excluded by the statement)"]
